@@ -35,7 +35,7 @@ struct lock_guard {
 
 	void unlock() {
 		FRG_ASSERT(_locked);
-		_mutex->lock();
+		_mutex->unlock();
 		_locked = false;
 	}
 
